@@ -43,6 +43,10 @@ Explains(cfg, s, c, r) ==
            /\ r.st = "ok" /\ s.aligned
            /\ Grows(s.labels, s.edges, r.labels, r.edges, Len(s.q))
            /\ ((s.allsame /\ s.q = cfg.ref) => r.labels = cfg.ref)       \* adding the reference again: same nodes
+      [] c.op = "other_mode" -> r.st = "ok"          \* semiglobal / local / custom: not judged, must not leak
+      [] c.op = "copy" ->                             \* clone / clone_from: the same graph (and scoring, and
+           /\ r.st = "ok"                             \* pending alignment: judged through the calls that follow)
+           /\ r.labels = s.labels /\ r.edges = s.edges
       [] c.op = "consensus" ->
            /\ r.st = "ok"
            /\ SpelledByPath(s.labels, s.edges, r.v)
@@ -52,6 +56,7 @@ Explains(cfg, s, c, r) ==
 After(cfg, s, c, r) ==
     CASE c.op = "new"    -> [s EXCEPT !.labels = r.labels, !.edges = r.edges]
       [] c.op \in {"global", "banded"} -> [s EXCEPT !.q = c.a.q, !.aligned = TRUE]
+      [] c.op = "other_mode" -> [s EXCEPT !.aligned = FALSE]     \* the drivers never add after it
       [] c.op = "add"    -> [s EXCEPT !.labels = r.labels, !.edges = r.edges,
                                       !.allsame = (s.allsame /\ s.q = cfg.ref)]
       [] OTHER -> s
